@@ -13,7 +13,9 @@ R  histories of host operations: the model's five sizes (vm_compute) vs the hook
    generators that fail after k yields while they are resumed (plain / each / keep / zip chains / nested generators;
    throw, runtime error, type check, in a called function, rethrown, timeout), kept in the exports and pulled again
    from scripts (next, to_list, to_tuple, for, count) and from the host (run_unary_op Next): a failed generator is
-   finished
+   finished; REPL sessions on the built `koto` binary through a pty (checks/c07_repl.py): single / multi-line entries
+   that succeed, fail at run time at depth, fail to compile, help, Ctrl-C mid-entry, function definitions + calls,
+   interleaved with entries that read the state
 D  after every completed host call the sizes are all zero; the operation's own result equals the same operation on
    a FRESH instance that performed only the completed effects of the earlier operations (so a re-import has to run
    the module again); probe scripts / calls / displays and the exports map agree with such an instance
@@ -24,11 +26,13 @@ import os
 from vlib import common as C
 from tools import k2v, k2v_rt
 from checks import c08 as T
+from checks import c07_repl as RP
 
 PID = "C07"
 UNIT = "rt"
 
 PINNED = ["entry_restores_frames", "entry_restores", "history_equiv", "early_exit_restored", "failed_generator_is_finished",
+          "buffer_empty_after_run", "buffer_empty_after_run_in_sessions", "session_equals_chunks",
           "entry_restores_refuted_builders", "value_to_string_clean", "compile_error_clean"]
 
 KNOWN_B = ("C07b sequence/string builders are not unwound when an error is raised between SequenceStart|StringStart and "
@@ -685,7 +689,7 @@ def flatten(h):
 
 
 def coq_history(model_terms):
-    return "history_out [" + "; ".join(model_terms) + "]"
+    return "history_out2 [" + "; ".join(model_terms) + "]"
 
 
 def run(tier, seed):
@@ -697,6 +701,16 @@ def run(tier, seed):
         gen_ok = True
     except k2v.GenError as e:
         chk.oblige("gen:rt", False, str(e))
+        gen_ok = False
+    try:
+        repl_flags, _ = k2v_rt.gen_repl(os.path.join(C.COQ, UNIT, "GenReplFlags.v"))
+        k2v_rt.gen_settings(os.path.join(C.COQ, UNIT, "GenKotoSettings.v"))
+        chk.oblige("gen:repl (k2v_rt: shape of Repl::on_line, where continued_lines is reset on each exit path, Ctrl-C arm)", True)
+        if not all(repl_flags.values()):
+            chk.log("repl.rs: exit paths that do NOT reset continued_lines: " + ", ".join(k for k, v in repl_flags.items() if not v))
+    except k2v.GenError as e:
+        chk.oblige("gen:repl", False, str(e))
+        chk.log(f"translator failed: {e}")
         gen_ok = False
     model_ok, axioms = (False, [])
     if gen_ok:
@@ -767,14 +781,31 @@ def run(tier, seed):
         chk.violation("harness", {"kind": "obligation", "correspondence": "kh_rt crashed", "log": out[-2000:]}, no_input=True)
         return chk.finish("n/a")
 
+    # ---- REPL sessions on the built binary
+    repl_sessions, repl_res = [], []
+    exe, elog = RP.build_cli()
+    if not exe:
+        chk.oblige("repl:koto_cli builds for this checkout", False, elog[-400:])
+        chk.log("koto_cli does not build; REPL sessions skipped:\n" + elog[-1500:])
+    else:
+        chk.oblige("repl:koto_cli builds for this checkout", True)
+        rrng = C.Rng(seed * 101 + 7)
+        repl_sessions = RP.corpus_sessions()
+        for _ in range(38 if tier == "quick" else 300):
+            repl_sessions.append(RP.gen_session(rrng, 3 + rrng.below(3)))
+        repl_res = RP.run_all(exe, repl_sessions, workers=8)
+
     # ---- model
     mvals = None
+    rvals = None
     if model_ok:
-        header = "From KV.rt Require Import RtModel RtRun.\nFrom Coq Require Import ZArith List.\nImport ListNotations.\n" \
+        header = "From KV.rt Require Import RtModel ReplModel RtRun.\nFrom Coq Require Import ZArith List.\nImport ListNotations.\n" \
                  "Open Scope Z_scope.\n"
         terms = [coq_history(model) for (_, _, model, _, _) in flat]
+        rterms = [RP.model_term(sess) for sess in repl_sessions]
         try:
-            mvals = C.coq_eval(UNIT, header, terms, tag="c07", per_shard=max(60, len(terms) // 6 + 1))
+            allv = C.coq_eval(UNIT, header, terms + rterms, tag="c07", per_shard=max(60, (len(terms) + len(rterms)) // 6 + 1))
+            mvals, rvals = allv[:len(terms)], allv[len(terms):]
         except RuntimeError as e:
             chk.log(str(e)[-3000:])
     if mvals is None:
@@ -788,7 +819,8 @@ def run(tier, seed):
         dist[h["origin"]] = dist.get(h["origin"], 0) + 1
         ms = lines[2 * hi]["steps"]
         rs = lines[2 * hi + 1]["steps"]
-        mv = mvals[hi] if mvals is not None else None
+        mv = mvals[hi][0] if mvals is not None else None
+        c07b = mvals[hi][1] if mvals is not None else None      # per model operation: in class C07b (Coq: builder_safe)
         seen_classes = set()
         labels = []
         nontrivial = False
@@ -796,6 +828,12 @@ def run(tier, seed):
             t = p["t"]
             if t is not None and p["kind"] == "op":
                 seen_classes |= p["classes"]
+                # the class predicate is the model's: some operation so far can raise an error while a string / sequence is
+                # under construction (the labels of the templates are only a fallback when the model is unavailable)
+                if c07b is not None:
+                    seen_classes.discard("C07b")
+                    if any(c07b[:p["model"] + 1]):
+                        seen_classes.add("C07b")
                 op_dist[t["label"].split("@")[0]] = op_dist.get(t["label"].split("@")[0], 0) + 1
                 labels.append(t["label"])
             if si >= len(ms):
@@ -892,6 +930,46 @@ def run(tier, seed):
         chk.oblige("corr:model-vs-hook sizes after every step of every history", not disagreements,
                    f"{len(disagreements)} disagreements")
 
+    # ---- REPL: D-clauses on the transcripts, model vs observed prompts
+    repl_fail = []
+    repl_dis = []
+    repl_kinds = {}
+    for si, (sess, res) in enumerate(zip(repl_sessions, repl_res)):
+        for e in sess:
+            k = e["kind"].split("/")[0].split(":")[0]
+            repl_kinds[k] = repl_kinds.get(k, 0) + 1
+        chk.count_case("repl: " + " ; ".join(e["kind"] for e in sess), any(e.get("fails") or "fail" in e["kind"] for e in sess))
+        fails = RP.judge(sess, res)
+        if fails:
+            repl_fail.append((si, fails))
+        elif rvals is not None:
+            mt = rvals[si]
+            typed = [l for e in sess for l in e["lines"]]
+            for i, (m, idle) in enumerate(zip(mt, res["prompts"])):
+                if (m[1] == 0) != idle:
+                    repl_dis.append((si, f"after line {i + 1} ({typed[i]!r}): the model has {m[1]} pending lines, the REPL shows the "
+                                         f"{'idle' if idle else 'continuation'} prompt"))
+                    break
+            # a chunk is handed to the runtime exactly at the last line of an entry that runs
+            pos = 0
+            for e in sess:
+                last = pos + len(e["lines"]) - 1
+                ran = mt[last][0] in (0, 1, 2) if last < len(mt) else None
+                if ran is not None and ran != bool(e["runs"] or e.get("help")):
+                    repl_dis.append((si, f"entry {e['kind']}: model action code {mt[last][0]} at its last line"))
+                    break
+                pos += len(e["lines"])
+    if repl_sessions and rvals is not None:
+        chk.oblige("corr:repl model (pending lines, chunk handed to run) vs prompts of the driven binary", not repl_dis,
+                   "; ".join(w for _, w in repl_dis[:2]))
+    if repl_fail:
+        repl_fail.sort(key=lambda x: sum(len(e["lines"]) for e in repl_sessions[x[0]]))
+        si, fails = repl_fail[0]
+        chk.violation("repl-input", {"kind": "input", "repl_session": repl_sessions[si], "predicate_failed": fails,
+                                     "transcript_tail": repl_res[si].get("transcript", "")[-2500:],
+                                     "others": len(repl_fail) - 1, "how_to_rerun": "./check C07 --replay <this file>"})
+        chk.log(f"{len(repl_fail)} REPL sessions violate C07; smallest: {[e['kind'] for e in repl_sessions[si]]}: {fails[:2]}")
+
     def hist_repr(hi):
         h = hs[hi]
         out = []
@@ -915,7 +993,7 @@ def run(tier, seed):
         chk.log(f"{len(d_fail)} histories violate C07 on the implementation; smallest: history of {len(hs[hi]['ops'])} ops, "
                 f"step {si}: {fails[:2]}")
     broken = [o for o in chk.obligations if not o[1]]
-    if broken and not d_fail:
+    if broken and not d_fail and not repl_fail:
         payload = {"kind": "obligation", "broken": [o[0] + (": " + o[2] if o[2] else "") for o in broken]}
         if disagreements:
             disagreements.sort(key=lambda x: (len(flat[x[0]][0]), x[1]))
@@ -958,11 +1036,27 @@ def run(tier, seed):
                     "behaviour equal to a fresh instance evaluated directly on the implementation",
         trusted_base=tb,
         extra={"distribution": dist, "operations": op_dist, "exhaustive": False,
+               "repl_sessions": len(repl_sessions), "repl_entry_kinds": repl_kinds,
                "model_impl_disagreements": len(disagreements)})
 
 
 def replay(path, args):
     data = json.load(open(path))
+    if "repl_session" in data:
+        exe, elog = RP.build_cli()
+        if not exe:
+            print(elog[-1500:])
+            return 3
+        res = RP.run_all(exe, [data["repl_session"]], workers=1)[0]
+        fails = RP.judge(data["repl_session"], res)
+        print(res.get("transcript", "")[-2000:])
+        for f in fails:
+            print("  " + f)
+        if fails:
+            print(f"VIOLATION property={PID} replay={path}")
+            return 1
+        print("no clause of C07 fails on this REPL session")
+        return 0
     if "main_ops" not in data:
         print("replay file names an obligation, not an input:", json.dumps(data.get("broken")))
         return run("quick", data.get("seed", 1))
